@@ -19,9 +19,25 @@ LOG_SYMS = {"DATA", "P"}
 _NONE_EXCS = {}
 
 
-def log_derived(I, t, depth=0):
+def log_derived(I, t, depth=0, _seen=None):
     """does the term depend on log bytes (stream data / payload) or on values read from them?"""
+    from ..interp import Instance
+    _seen = set() if _seen is None else _seen
     for x in walk(t):
+        if isinstance(x, Sym) and x.kind in ("loopout", "loopvar") and x.info and depth < 4 and x not in _seen:
+            # a value carried by a loop: what the loop computes for it
+            _seen.add(x)
+            L_ = I.loops.get(x.info[0]) if isinstance(x.info, tuple) and x.info else None
+            nm_ = x.name.split(":", 1)[1] if ":" in x.name else None
+            c_ = L_.carried.get(nm_) if L_ is not None and nm_ else None
+            if c_ is not None and (log_derived(I, c_[1], depth + 1, _seen) or log_derived(I, c_[0], depth + 1, _seen)):
+                return True
+        if isinstance(x, Ref) and depth < 3:
+            o_ = I.heap.get(x.oid)
+            if isinstance(o_, Instance) and not getattr(o_, "shared", None) and x.oid not in _seen:
+                _seen.add(x.oid)
+                if any(log_derived(I, v_, depth + 1, _seen) for k_, v_ in o_.attrs.items() if k_ != "stream"):
+                    return True
         if isinstance(x, Sym) and (x.name in LOG_SYMS or x.name.startswith(("refcode", "w", "hw", "word", "proc")) and x.kind == "sym" and False):
             return True
         if isinstance(x, Op) and x.op in ("getslice",) and any(isinstance(y, Sym) and y.name in LOG_SYMS for y in walk(x)):
@@ -464,5 +480,10 @@ def run(rep, prog, thorough):
     check_one_shot_iterators(rep, prog, runs)
     check_loaded_data_and_options(rep, prog, runs)
     check_dir_loops(rep, prog)
+    # what --all-pels shows for one file does not depend on the other files of the directory (e.g. two files with the same
+    # entry id): the mode's stdout summary run over all outcome patterns (rule shared with C06 / C08 / C09)
+    from .c09 import check_all_separator
+    from ..cli import FullMain
+    check_all_separator(rep, FullMain(prog), "C19.R4.no-value-outlives-its-file")
     from ..effects import check_no_memoised
     check_no_memoised(rep, prog, 'C19.R3.shared-state-writes', None, 'a decode returns what an earlier decode computed for equal arguments')
